@@ -11,6 +11,8 @@ A small fixed family of mapped classes in a private ``registry()``:
 * ``Parent.profile`` / ``Profile.parent``        one-to-one (scalar on the Parent side, foreign key on Profile; default cascade)
 * ``Parent.notes``                               unidirectional one-to-many (Note has no relationship back; cascade is a parameter)
 * ``Item`` / ``SubItem(Item)``                   joined-table inheritance pair, unrelated to the rest (C46)
+* ``Owner.badges``                               unidirectional one-to-many below the many-to-one target (cascade is a parameter)
+* ``Shape.start``                                composite(Point, px, py) on a stand-alone class (C46)
 
 The cascade setting of the four "forward" relationships (children, grandchildren,
 tags, owner) is a parameter; one mapping is built and cached per distinct
@@ -28,7 +30,7 @@ import warnings
 from collections import OrderedDict
 
 from sqlalchemy import Column, ForeignKey, Integer, String, Table
-from sqlalchemy.orm import registry, relationship
+from sqlalchemy.orm import composite, registry, relationship
 
 from vf import sautil
 
@@ -48,11 +50,33 @@ def norm_cascade(opts) -> str:
     return ", ".join(o for o in ALL_OPTS if o in set(opts))
 
 
+class Point:
+    """value object of the composite attribute Shape.start"""
+
+    def __init__(self, x, y):
+        self.x, self.y = x, y
+
+    def __composite_values__(self):
+        return self.x, self.y
+
+    def __eq__(self, other):
+        return isinstance(other, Point) and (self.x, self.y) == (other.x, other.y)
+
+    def __ne__(self, other):
+        return not self.__eq__(other)
+
+    def __hash__(self):
+        return hash((self.x, self.y))
+
+    def __repr__(self):
+        return f"Point({self.x!r}, {self.y!r})"
+
+
 class Family:
     """one configured mapping (classes + metadata)"""
 
-    def __init__(self, c_children, c_grandchildren, c_tags, c_owner, c_notes=DEFAULT_CASCADE):
-        self.cascades = {"children": c_children, "grandchildren": c_grandchildren, "tags": c_tags, "owner": c_owner, "notes": c_notes}
+    def __init__(self, c_children, c_grandchildren, c_tags, c_owner, c_notes=DEFAULT_CASCADE, c_badges=DEFAULT_CASCADE):
+        self.cascades = {"children": c_children, "grandchildren": c_grandchildren, "tags": c_tags, "owner": c_owner, "notes": c_notes, "badges": c_badges}
         reg = registry()
         self.reg = reg
         md = reg.metadata
@@ -84,6 +108,8 @@ class Family:
                 id = Column(Integer, primary_key=True)
                 name = Column(String)
                 parents = relationship("Parent", back_populates="owner", order_by="Parent.id")
+                # unidirectional one-to-many below the many-to-one target: Parent.owner -> Owner.badges -> Badge
+                badges = rel("Badge", c_badges, order_by="Badge.id")
 
                 def __repr__(self):
                     return f"Owner#{self.__dict__.get('id')}"
@@ -143,6 +169,29 @@ class Family:
                     return f"Profile#{self.__dict__.get('id')}"
 
             @reg.mapped
+            class Badge:
+                __tablename__ = "badge"
+                id = Column(Integer, primary_key=True)
+                owner_id = Column(ForeignKey("owner.id"))
+                x = Column(Integer)
+
+                def __repr__(self):
+                    return f"Badge#{self.__dict__.get('id')}"
+
+            @reg.mapped
+            class Shape:
+                """plain class with a composite attribute over two of its columns (C46)"""
+
+                __tablename__ = "shape"
+                id = Column(Integer, primary_key=True)
+                px = Column(Integer)
+                py = Column(Integer)
+                start = composite(Point, px, py)
+
+                def __repr__(self):
+                    return f"Shape#{self.__dict__.get('id')}"
+
+            @reg.mapped
             class Note:
                 __tablename__ = "note"
                 id = Column(Integer, primary_key=True)
@@ -181,14 +230,14 @@ class Family:
                     return f"Tag#{self.__dict__.get('id')}"
 
             self.Owner, self.Parent, self.Child, self.Grandchild, self.Tag = Owner, Parent, Child, Grandchild, Tag
-            self.Profile, self.Note, self.Item, self.SubItem = Profile, Note, Item, SubItem
-            self.classes = {"owner": Owner, "parent": Parent, "child": Child, "grandchild": Grandchild, "tag": Tag, "profile": Profile, "note": Note}
+            self.Profile, self.Note, self.Item, self.SubItem, self.Badge, self.Shape = Profile, Note, Item, SubItem, Badge, Shape
+            self.classes = {"owner": Owner, "parent": Parent, "child": Child, "grandchild": Grandchild, "tag": Tag, "profile": Profile, "note": Note, "badge": Badge}
             reg.configure()
 
 
-def family(children=None, grandchildren=None, tags=None, owner=None, notes=None) -> Family:
+def family(children=None, grandchildren=None, tags=None, owner=None, notes=None, badges=None) -> Family:
     """cached mapping for the given cascade settings (None = library default)"""
-    key = (norm_cascade(children), norm_cascade(grandchildren), norm_cascade(tags), norm_cascade(owner), norm_cascade(notes))
+    key = (norm_cascade(children), norm_cascade(grandchildren), norm_cascade(tags), norm_cascade(owner), norm_cascade(notes), norm_cascade(badges))
     fam = _CACHE.get(key)
     if fam is None:
         fam = Family(*key)
@@ -211,6 +260,8 @@ TABLE_COLS = {
     "parent_tag": ("parent_id", "tag_id"),
     "profile": ("id", "parent_id", "x"),
     "note": ("id", "parent_id", "x"),
+    "badge": ("id", "owner_id", "x"),
+    "shape": ("id", "px", "py"),
     "item": ("id", "kind", "a"),
     "subitem": ("id", "s"),
 }
